@@ -5,7 +5,7 @@ import difflib, random
 SP, PLUS, MINUS = 32, 43, 45
 
 WORDS = [b"a", b"b", b"c", b"x y", b"x  y", b"x\ty", b" a", b"a ", b"", b" ", b"\t", b"#x", b"\\", b"foo", b"a b c",
-         b"}", b"{", b"int main()", b"\xff\x00z", b"a\r"]
+         b"}", b"{", b"int main()", b"\xff\x00z", b"a\r", b"-- x", b"++ y"]   # "-- x" removed reads "--- x", "++ y" added reads "+++ y"
 
 
 def rand_content(rng, small=False):
